@@ -1,4 +1,99 @@
-From Coq Require Import List ZArith.
-From EV Require Import PySlice CountsGen Counts.
-Theorem placeholder_c03 : True. Proof. exact I. Qed.
-Print Assumptions placeholder_c03.
+(* C03 — transition counts equal the exact number of lagged state pairs.
+   Property theorems only; proofs live in Proof/CountsProofs.v.  The definitions gen_start_states /
+   gen_end_states are regenerated from enspara/msm/transition_matrices.py on every run. *)
+From Coq Require Import List ZArith Permutation.
+From EV Require Import PySlice CountsGen Counts CountsProofs.
+Import ListNotations.
+Open Scope Z_scope.
+
+(* The pairs taken from one trajectory by the translated slices are exactly: pair k starts at frame
+   k*step (step = 1 sliding, lag otherwise) of the -1-stripped trajectory and ends lag frames later. *)
+Theorem c03_pairs_are_lagged_pairs : forall sliding lag t,
+  1 <= lag -> traj_pairs sliding lag t = spec_pairs sliding lag (strip t).
+Proof. exact traj_pairs_spec. Qed.
+Print Assumptions c03_pairs_are_lagged_pairs.
+
+(* ... and those positions are exactly the legal ones: every pair lies inside its trajectory, *)
+Theorem c03_pairs_inside_trajectory : forall sliding lag n k,
+  1 <= lag -> (k < npairs sliding lag n)%nat ->
+  0 <= Z.of_nat k * wstep sliding lag /\ Z.of_nat k * wstep sliding lag + lag < Z.of_nat n.
+Proof. exact npairs_in_range. Qed.
+Print Assumptions c03_pairs_inside_trajectory.
+
+(* under the sliding window there is one pair per frame position with a partner, *)
+Theorem c03_sliding_pair_count : forall lag n, 1 <= lag -> npairs true lag n = Z.to_nat (Z.of_nat n - lag).
+Proof. exact npairs_sliding. Qed.
+Print Assumptions c03_sliding_pair_count.
+
+(* without it exactly the multiples of lag whose partner exists. *)
+Theorem c03_strided_positions : forall lag n k,
+  1 <= lag -> ((k < npairs false lag n)%nat <-> Z.of_nat k * lag + lag < Z.of_nat n).
+Proof. exact npairs_strided_iff. Qed.
+Print Assumptions c03_strided_positions.
+
+Theorem c03_stacked_rows_same_length : forall sliding lag a,
+  1 <= lag -> length (gen_start_states a lag sliding) = length (gen_end_states a lag sliding).
+Proof. exact gen_lengths_equal. Qed.
+Print Assumptions c03_stacked_rows_same_length.
+
+(* Entry (i,j) of the returned matrix is the number of extracted pairs with states (i,j); *)
+Theorem c03_entry_is_pair_count : forall sliding lag maxn trjs M (i j : nat),
+  counts_matrix sliding lag maxn trjs = Some M ->
+  (i < Z.to_nat (n_states maxn trjs))%nat -> (j < Z.to_nat (n_states maxn trjs))%nat ->
+  nth j (nth i M []) 0%nat = count_pair (all_pairs sliding lag trjs) (Z.of_nat i) (Z.of_nat j).
+Proof. exact counts_entry. Qed.
+Print Assumptions c03_entry_is_pair_count.
+
+Theorem c03_cell_counts_positions : forall sliding lag a i j,
+  count_pair (spec_pairs sliding lag a) i j =
+  length (filter (fun k => (nth (Z.to_nat (Z.of_nat k * wstep sliding lag)) a 0 =? i) &&
+                           (nth (Z.to_nat (Z.of_nat k * wstep sliding lag + lag)) a 0 =? j))%bool
+                 (seq 0 (npairs sliding lag (length a)))).
+Proof. exact count_pair_spec_positions. Qed.
+Print Assumptions c03_cell_counts_positions.
+
+(* the matrix is square with the requested / observed number of states; *)
+Theorem c03_square : forall sliding lag maxn trjs M,
+  counts_matrix sliding lag maxn trjs = Some M ->
+  length M = Z.to_nat (n_states maxn trjs) /\
+  forall row, In row M -> length row = Z.to_nat (n_states maxn trjs).
+Proof. exact counts_shape. Qed.
+Print Assumptions c03_square.
+
+(* its total is the number of pairs, which under the sliding window is sum_t max(0, len_t - lag); *)
+Theorem c03_total : forall sliding lag maxn trjs M,
+  counts_matrix sliding lag maxn trjs = Some M -> matrix_total M = length (all_pairs sliding lag trjs).
+Proof. exact counts_total. Qed.
+Print Assumptions c03_total.
+
+Theorem c03_total_sliding : forall lag trjs, 1 <= lag ->
+  length (all_pairs true lag trjs) =
+  fold_right (fun t acc => (Z.to_nat (Z.of_nat (length (strip t)) - lag) + acc)%nat) 0%nat trjs.
+Proof. exact total_pairs_sliding. Qed.
+Print Assumptions c03_total_sliding.
+
+(* pairs are taken per trajectory (no pair spans two trajectories) and counts are additive; *)
+Theorem c03_additive : forall sliding lag A B i j,
+  count_pair (all_pairs sliding lag (A ++ B)) i j =
+  (count_pair (all_pairs sliding lag A) i j + count_pair (all_pairs sliding lag B) i j)%nat.
+Proof. exact counts_additive. Qed.
+Print Assumptions c03_additive.
+
+(* any reordering of the trajectories gives the same counts; *)
+Theorem c03_order_independent : forall sliding lag A B i j,
+  Permutation A B -> count_pair (all_pairs sliding lag A) i j = count_pair (all_pairs sliding lag B) i j.
+Proof. exact counts_perm. Qed.
+Print Assumptions c03_order_independent.
+
+(* trailing -1 padding (to any rectangle) is ignored. *)
+Theorem c03_padding_ignored : forall sliding lag trjs (pad : list Z -> nat),
+  all_pairs sliding lag (map (fun t => t ++ repeat (-1) (pad t)) trjs) = all_pairs sliding lag trjs.
+Proof. exact all_pairs_padded. Qed.
+Print Assumptions c03_padding_ignored.
+
+(* Non-vacuity: a concrete non-trivial run of the model. *)
+Example c03_example :
+  counts_matrix false 2 None [[0; 1; 1; 0; 1; -1; -1]; [1]; [1; 0; 0]] = Some [[0; 1]; [1; 1]]%nat
+  /\ counts_matrix true 2 (Some 3) [[0; 1; 1; 0; 1]; [1]; [1; 0; 0]] = Some [[0; 1; 0]; [2; 1; 0]; [0; 0; 0]]%nat.
+Proof. vm_compute. split; reflexivity. Qed.
+Print Assumptions c03_example.
